@@ -107,6 +107,9 @@ Definition fadj (w : fword) : fword := rev (map (fun l => (fst l, negb (snd l)))
 (* FermiWord.__mul__ : positions of the right factor shifted by len(left) *)
 Definition fmul (u v : fword) : fword := u ++ v.
 Definition fsadj (S : fsent) : fsent := map (fun e => (fadj (fst e), cconj (snd e))) S.
+(* FermiSentence.__mul__ by a scalar; __add__ of two sentences is modelled by list concatenation (equal keys are
+   merged by the accumulation in fs_image exactly as the dict would) *)
+Definition fsscale (c : C) (S : fsent) : fsent := map (fun e => (fst e, cmul (snd e) c)) S.
 
 Definition half : C := (1 # 2, 0)%Q.
 (* coeffs = {"+": -0.5j, "-": 0.5j} *)
@@ -274,6 +277,22 @@ Definition jw_pt_equiv_ok (n : nat) : bool :=
                     | Some B => sent_eqb (to_parity n (jw_op n l)) B
                     | None => false end) (all_ops n)
   && forallb (fun j => sent_eqb (smul (cnot n j (S j)) (sadj (cnot n j (S j)))) (ident n)) (seq 0 (n - 1)).
+
+(* occupation basis -> Bravyi-Kitaev basis: qubit j accumulates orbital i < j iff j is in the update set of i;
+   rows processed from the top so that the controls still hold plain occupations *)
+Definition bk_update (n i : nat) : list nat :=
+  match update_set (S (S n)) i (bin_range n) n with Some u => u | None => [] end.
+Definition to_bk (n : nat) (A : psent) : psent :=
+  fold_left (fun acc j =>
+               fold_left (fun acc' i => if existsb (Nat.eqb j) (bk_update n i)
+                                        then conj_by (cnot n i j) acc' else acc') (seq 0 j) acc)
+            (rev (seq 0 n)) A.
+Definition jw_bk_equiv_ok (n : nat) : bool :=
+  forallb (fun l => match bk_op n l with
+                    | Some B => sent_eqb (to_bk n (jw_op n l)) B
+                    | None => false end) (all_ops n).
+Definition cnot_unitary_ok (n : nat) : bool :=
+  forallb (fun j => forallb (fun i => sent_eqb (smul (cnot n i j) (sadj (cnot n i j))) (ident n)) (seq 0 j)) (seq 0 n).
 
 (* ------------------------------------------------------------------ correspondence *)
 Inductive finput := FW (w : fword) | FS (s : fsent).
